@@ -133,6 +133,15 @@ def spec_call(ex, ev: Eval, node: ast.Call, fname: str):
                         sub_st.vars[p + k2[len(real):]] = v2
         sub = Eval(ex, sub_st, True, bound, ev.old, ev.result)
         return V(BOOL, z3.And(*[sub.boolean(ex.parse_clause(c)) for c in m.clauses]))
+    if fname in ex.reg.recfns:
+        rf = ex.reg.recfns[fname]
+        ats = [parse_type(t, ex.generics) for _, t in rf["params"]]
+        rt = parse_type(rf["ret"], ex.generics)
+        f = ufun(fname, [sort_of(t) for t in ats], sort_of(rt))
+        return V(rt, f(*[coerce_to(ev.expr(x), t).z for x, t in zip(a, ats)]))
+    if fname == "arr":  # arr(list) -> the element map of a list value
+        v = ev.expr(a[0])
+        return V(TMap(INT, v.t.elem), list_arr(v))
     if fname in ex.reg.deffns:
         params, body, group, ret = ex.reg.deffns[fname]
         rt = parse_type(ret)
